@@ -41,7 +41,6 @@ theorem C13_no_triple (s : Str) (unq : Bool) (limit : Nat) :
     fields are not allowed at this place).  No other code is possible — in particular not CIF_INTERNAL_ERROR. -/
 theorem C13_refusal_codes (c : Ctx) (s : Str) (quoted allowText : Bool) (e : Code)
     (h1 : c.isCif1 = true)
-    (hA : C02_AnalysisFacts s (Model.analyze s (!quoted) false LINE))
     (herr : writeChar c s quoted allowText = .error e) :
     (e = Gen.ErrCodes.CIF_DISALLOWED_CHAR ∧ validate11 s = false)
     ∨ (e = Gen.ErrCodes.CIF_DISALLOWED_VALUE ∧ (Model.analyze s (!quoted) false LINE).delimLength = 2
@@ -74,7 +73,7 @@ theorem C13_refusal_codes (c : Ctx) (s : Str) (quoted allowText : Bool) (e : Cod
       · exfalso
         rw [Lemmas.WriterChar.writeChar_delim2 c s quoted allowText hv (by rw [hc]; exact d) hr] at herr
         rw [hc] at herr
-        have hflags := C02_flags_semis s _ hA
+        have hflags := C02_flags_semis s _ (Lemmas.WriterAnalysis.maxSemiRun_zero s (!quoted) false LINE)
         have hex : ∃ body, textBody s (Lemmas.WriterChar.charFlags (Model.analyze s (!quoted) false LINE)).1
             (Lemmas.WriterChar.charFlags (Model.analyze s (!quoted) false LINE)).2 = .ok body := by
           rcases hflags with h | h | h
@@ -95,10 +94,10 @@ theorem C13_refusal_codes (c : Ctx) (s : Str) (quoted allowText : Bool) (e : Cod
 theorem C13_never_silently_alters (c : Ctx) (s : Str) (quoted : Bool) (out : Str) (c' : Ctx)
     (h1 : c.isCif1 = true) (hcr : (13 : CU) ∉ s)
     (hdelim : (Model.analyze s (!quoted) false LINE).delimLength = 2)
-    (hA : C02_AnalysisFacts s (Model.analyze s (!quoted) false LINE))
     (hok : writeChar c s quoted true = .ok (out, c')) :
     ∃ body, out = (a!"\n;") ++ body ++ (a!"\n;") ∧ decodeText true true body = s ∧ validate11 body = true := by
   have hc : (!c.isCif1) = false := by simp [h1]
+  have hA := C02_analysis_facts s (!quoted) false LINE hcr
   -- the text passed validation, and was not refused
   have hv : ¬(c.isCif1 = true ∧ validate11 s = false) := by
     intro hv
